@@ -10,6 +10,8 @@ import (
 	"path/filepath"
 	"sort"
 	"strings"
+	"sync"
+	"sync/atomic"
 	"time"
 
 	"gopkg.in/typ.v4/chans"
@@ -489,7 +491,9 @@ func main() {
 				// the two-event publisher, whose second event an idle subscriber keeps waiting
 				if variant == "PubSlice" {
 					scs = append(scs, crowdScenarioB(variant, n, 1, []int{0, n - 1}, 0))
-				} else if r.Thorough() {
+				} else if r.Thorough() && n <= 1100 {
+					// (unbuffered: every step searches all threads for a rendezvous partner - one schedule of
+					// 1100 subscribers takes most of a minute, 4100 would take hours)
 					scs = append(scs, crowdScenarioB(variant, n, 0, []int{0, n - 1}, 0))
 				}
 				continue
@@ -500,6 +504,7 @@ func main() {
 	if os.Getenv("VERIF_C10_SEQ") != "" {
 		// child process: the sequential parts only (see below)
 		r.Set("sequential_family_calls", sequentialFamily(r))
+		r.Set("huge_crowd_family_subscribers", hugeCrowd(r))
 		st, tr := sequentialAPI(r)
 		r.Set("sequential_api_states", st)
 		r.Set("sequential_api_transitions", tr)
@@ -549,6 +554,83 @@ func main() {
 		r.Set("rule", "controlled scheduler over the instrumented chans package (RWMutex with writer preference, WaitGroup, spawned sender goroutines, channels, select and timers are model objects): one publisher using each of the 6 publish variants (1 event, 2 for the Slice variants), 0-2 (3) subscribers with buffers {0,1} created through Sub/DefaultBuffer and SubBuf, timeout off / on with a recording OnPubTimeout, one receiver per subscription that keeps receiving until its channel is closed, and optionally a manager thread doing one of Unsub(sub0), UnsubAll, Sub, Unsub(unknown), Unsub(nil), WithOnly(sub0).PubSync, or a second publisher; executions run to quiescence (only receivers may remain blocked). In addition (one goroutine, no scheduler) an explicit-state search to fixpoint over the sequential API: SubBuf/Sub, Unsub of every handle incl. already removed ones, nil and foreign channels, UnsubAll, the four synchronous publish variants, WithOnly(handle) publishers made on the spot and one retained across later calls, up to 3 (4) subscription handles, every channel drained and compared with a subscription model after every call. Ledger oracle: per (event, subscriber) at most one delivery; every subscriber that stayed subscribed gets each event or, only with a timeout, one OnPubTimeout stands in for it; deliveries + timeouts never exceed the subscribers (and equal them without a manager); Sync variants in publication order; Wait/Sync return only after every hand-off or timeout callback is done; Unsub/UnsubAll close exactly the removed channels and return the documented errors; WithOnly reaches only the given subscription; no panic")
 		r.Assume("timers are untimed (may fire at any point after creation); 'eventually' for Pub/PubSlice means at quiescence of the closed driver")
 	})
+}
+
+// hugeCrowd: 2^16+1 unbuffered subscribers, none of them receiving yet when the publish call starts;
+// then one receiver per subscription. Far beyond anything the scheduler can explore (it models tens of
+// threads): ONE free-running execution per publish variant on the real runtime - a deterministic
+// large-size family member, not an exhaustive exploration. Whatever the timing, every subscriber must
+// get the event exactly once, the call must return, nothing may panic.
+func hugeCrowd(r *ev.Run) int {
+	const n = 1<<16 + 1
+	for _, variant := range []string{"PubSync", "PubWait", "PubSliceSync"} {
+		ps := &chans.PubSub[int]{}
+		subs := make([]<-chan int, n)
+		for i := range subs {
+			subs[i] = ps.Sub()
+		}
+		rp := map[string]any{"family": "huge-crowd", "variant": variant, "subscribers": n}
+		ret := make(chan string, 1)
+		go func() {
+			defer func() {
+				if p := recover(); p != nil {
+					ret <- fmt.Sprint("panic: ", p)
+				}
+			}()
+			switch variant {
+			case "PubSync":
+				ps.PubSync(7)
+			case "PubWait":
+				ps.PubWait(7)
+			default:
+				ps.PubSliceSync([]int{7})
+			}
+			ret <- ""
+		}()
+		time.Sleep(30 * time.Millisecond) // the publisher is (very probably) waiting for its first receiver now
+		got := make([]int32, n)
+		var wg sync.WaitGroup
+		for i := range subs {
+			wg.Add(1)
+			go func(i int) {
+				defer wg.Done()
+				atomic.StoreInt32(&got[i], int32(<-subs[i]))
+			}(i)
+		}
+		all := make(chan struct{})
+		go func() { wg.Wait(); close(all) }()
+		msg, timedOut := "", false
+		select {
+		case msg = <-ret:
+		case <-time.After(3 * time.Minute):
+			timedOut = true
+		}
+		if msg != "" {
+			r.Report(ev.Violation{Sig: "family|huge-crowd|panic", Msg: fmt.Sprintf("%s with %d subscribers that start receiving after the call began: %s", variant, n, msg), Replay: rp})
+			return n // the receivers of a dead publisher stay blocked; the process ends with the check
+		}
+		if !timedOut {
+			select {
+			case <-all:
+			case <-time.After(3 * time.Minute):
+				timedOut = true
+			}
+		}
+		missing := 0
+		for i := range got {
+			if atomic.LoadInt32(&got[i]) != 7 {
+				missing++
+			}
+		}
+		if timedOut || missing > 0 {
+			r.Report(ev.Violation{Sig: "family|huge-crowd|lost", Msg: fmt.Sprintf("%s with %d subscribers that start receiving after the call began: %d of them never received the event (call returned: %v)", variant, n, missing, !timedOut), Replay: rp})
+			return n
+		}
+		if err := ps.UnsubAll(); err != nil {
+			r.Report(ev.Violation{Sig: "family|huge-crowd|unsub", Msg: fmt.Sprintf("UnsubAll after %s to %d subscribers: %v", variant, n, err), Replay: rp})
+		}
+	}
+	return n
 }
 
 // sequentialFamily: long single-goroutine Sub/Unsub/UnsubAll/publish histories with up to 70
